@@ -113,7 +113,11 @@ type dataFamily struct {
 	flushCondition sync.WaitGroup
 	// seqLock is held(read) from ValidateSequence until CommitSequence, flush holds it(write) when switches memory database,
 	// so the rows of a replica sequence and the sequence itself always belong to the same memory database.
-	seqLock       sync.RWMutex
+	seqLock sync.RWMutex
+	// filterLock is held(read) by Filter while it collects the places to read, flush holds it(write) from the commit
+	// of the flushed table until the memory database is closed, so a query never reads flushed data twice
+	// (new file + immutable memory database).
+	filterLock    sync.RWMutex
 	timeRange     timeutil.TimeRange
 	familyTime    int64
 	ref           atomic.Int32
@@ -400,6 +404,8 @@ func (f *dataFamily) MemDBSize() int64 {
 // if it finds data then returns the FilterResultSet, else returns nil
 func (f *dataFamily) Filter(executeCtx *flow.ShardExecuteContext) (resultSet []flow.FilterResultSet, err error) {
 	f.lastReadTime.Store(fasttime.UnixMilliseconds())
+	f.filterLock.RLock()
+	defer f.filterLock.RUnlock()
 	// a place that holds nothing for the query(not found) must not hide the other places of the family
 	memRS, err := f.memoryFilter(executeCtx)
 	if err != nil && !errors.Is(err, constants.ErrNotFound) {
@@ -610,6 +616,27 @@ func (f *dataFamily) AckSequence(leader int32, fn func(seq int64)) {
 	}
 }
 
+// commitLockFlusher holds the family's filter lock from the commit of the flushed table on.
+type commitLockFlusher struct {
+	kv.Flusher
+	lock   *sync.RWMutex
+	locked bool
+}
+
+// Commit locks out queries, then commits the table.
+func (cf *commitLockFlusher) Commit() error {
+	cf.lock.Lock()
+	cf.locked = true
+	return cf.Flusher.Commit()
+}
+
+func (cf *commitLockFlusher) unlock() {
+	if cf.locked {
+		cf.locked = false
+		cf.lock.Unlock()
+	}
+}
+
 // GetOrCreateMemoryDatabase returns memory database by given family time.
 func (f *dataFamily) GetOrCreateMemoryDatabase(familyTime int64) (memdb.MemoryDatabase, error) {
 	f.mutex.Lock()
@@ -668,8 +695,10 @@ func (f *dataFamily) Close() error {
 // flushMemoryDatabase flushes memory database to disk.
 func (f *dataFamily) flushMemoryDatabase(sequences map[int32]int64, memDB memdb.MemoryDatabase) error {
 	startTime := time.Now()
-	flusher := f.family.NewFlusher()
+	flusher := &commitLockFlusher{Flusher: f.family.NewFlusher(), lock: &f.filterLock}
 	defer func() {
+		// memory database is closed(or flush failure), queries can go on
+		flusher.unlock()
 		flusher.Release()
 		f.statistics.MemDBFlushDuration.UpdateSince(startTime)
 	}()
